@@ -289,7 +289,7 @@ fn gen_unit_raw(prop: &str, tier: Tier, rng: &mut Rng) -> Vec<Case> {
         }
         "C09" => {
             let mut sw = Swarm::draw(rng, &CORE_KINDS, th);
-            sw.kinds.retain(|k| *k != Kind::PredClause);
+            sw.kinds.retain(|k| *k != Kind::PredClause && *k != Kind::ViewClause);
             if sw.kinds.is_empty() {
                 sw.kinds.push(Kind::LinLe);
             }
